@@ -29,8 +29,8 @@ S(seq) == SeqToSet(seq)
 (* space a broken triangle inequality is keyed "float" whatever the inputs look like          *)
 TriTag(f) == IF "seam" \in f THEN "seam" ELSE IF "near" \in f THEN "near"
              ELSE IF "antipodal" \in f THEN "antipodal" ELSE IF "bound" \in f THEN "bound" ELSE "generic"
-PairTag(f) == IF "near" \in f THEN "near" ELSE IF "bound" \in f THEN "bound"
-              ELSE IF "seam" \in f THEN "seam" ELSE IF "antipodal" \in f THEN "antipodal" ELSE "generic"
+PairTag(f) == IF "bound" \in f THEN "bound" ELSE IF "seam" \in f THEN "seam"
+              ELSE IF "antipodal" \in f THEN "antipodal" ELSE IF "near" \in f THEN "near" ELSE "generic"
 
 (* positivity is required of a pair the space itself calls unequal and whose largest      *)
 (* coordinate separation (nano-units) exceeds the resolution logged for the space (0 for  *)
